@@ -134,7 +134,7 @@ def parseRestartFund (tok : String) : Option (Nat × Nat × Nat) :=
   | [some k, some t, some i] => some (k, t, i)
   | _ => none
 
-def drvStep (d : Drv) (args : List String) : Drv × String :=
+def drvStep0 (d : Drv) (args : List String) : Drv × String :=
   let bad := (d, "bad-op")
   let fin (r : Drv × Res) : Drv × String := (r.1, render d r.1 (fmtRes r.2))
   match args with
@@ -285,5 +285,13 @@ def drvStep (d : Drv) (args : List String) : Drv × String :=
       (r.1, render d r.1 (fmtRes r.2))
     | _, _ => bad
   | _ => bad
+
+/-- after every op the goroutines of the registrations it cancelled wind down (`flush`) -/
+def drvStep (d : Drv) (args : List String) : Drv × String :=
+  let r := drvStep0 d args
+  let accts := r.1.accts.map fun s => (step s .flush).1
+  -- the pending batch is gone once no account has a staged copy any more (a spend handler committed it)
+  ({ r.1 with accts := accts,
+              batch := r.1.batch.filter fun j => ((accts.find? (·.key == j)).bind (·.staged)).isSome }, r.2)
 
 end Pool.C08
